@@ -15,6 +15,7 @@
 -/
 import DropletsVerif.Lemmas.RealInst
 import DropletsVerif.Props.C02
+import DropletsVerif.Props.C03
 import DropletsVerif.Lemmas.BallConn
 import DropletsVerif.Generated.Spherical
 import Mathlib.Tactic
@@ -1371,5 +1372,270 @@ theorem emulsion_one_cluster_each (balls : List (List ℚ × ℚ)) (hwf : ∀ b 
     exact ((ballMask_iff axes b.1 b.2 c).mp hb).1
   rw [locateMask_topology (shapeOf axes) (perOf axes) mask hpos hmask coord cells shp c1 c2 m1 m2]
   exact emulsion_components axes balls hwf hsep m1 m2
+
+end DV.C01
+
+/-! ### a droplet inside an image: volume and position of its cluster; emulsions -/
+
+namespace DV.C01
+open Finset BigOperators DV.Merge DV.MergeInv DV.Label DV.LabelInv DV.GridGeom DV.Render DV.BallConn DV.C02 Relation
+
+variable (axes : List Axis) (ctr : List ℚ)
+
+/-- in the image `mask`, the component of the cell `c0` under the grid's topology is exactly the set of
+cells covered by the droplet (centre `ctr`, radius `R`) -/
+structure CompIsBall (mask : ℕ → Bool) (c0 : ℕ) (R : ℚ) : Prop where
+  sub : ∀ c, ballMask axes ctr R c = true → mask c = true
+  bound : ∀ c, mask c = true → c < numCells (shapeOf axes)
+  comp : ∀ c, mask c = true → (GridConn (shapeOf axes) (perOf axes) mask c0 c ↔ ballMask axes ctr R c = true)
+  c0in : ballMask axes ctr R c0 = true
+
+section comp
+variable {axes ctr}
+variable {mask : ℕ → Bool} {c0 : ℕ} {R : ℚ}
+
+/-- the cluster of `c0` consists of the droplet's cells -/
+theorem comp_label_iff (h : GridWF axes ctr) (hc : CompIsBall axes ctr mask c0 R) (coord : ℕ → ℕ → ℕ) (cells : List ℕ) (shp : ℕ → ℕ) :
+    let L := labelFn (shapeOf axes) mask
+    let st := mergeLoop shp L (initSt coord L cells) (edgesOf (shapeOf axes) (perOf axes))
+    0 < st.lab c0 ∧ ∀ c, (st.lab c = st.lab c0 ↔ ballMask axes ctr R c = true) := by
+  intro L st
+  have hpos := shape_pos axes ctr h
+  have m0 : mask c0 = true := hc.sub c0 hc.c0in
+  have hposlab := (locateMask_partition (shapeOf axes) (perOf axes) mask hc.bound coord cells shp).1
+  have h0 : 0 < st.lab c0 := (hposlab c0).mpr m0
+  refine ⟨h0, fun c => ?_⟩
+  by_cases hm : mask c = true
+  · rw [← hc.comp c hm, ← locateMask_topology (shapeOf axes) (perOf axes) mask hpos hc.bound coord cells shp c0 c m0 hm]
+    exact eq_comm
+  · have hz : ¬ 0 < st.lab c := (hposlab c).not.mpr hm
+    constructor
+    · intro heq; rw [heq] at hz; exact absurd h0 hz
+    · intro hb; exact absurd (hc.sub c hb) hm
+
+theorem comp_lift_consistent (h : GridWF axes ctr) (hres : Resolved axes R) (hc : CompIsBall axes ctr mask c0 R) :
+    let L := labelFn (shapeOf axes) mask
+    ConsistentLift L (edgesOf (shapeOf axes) (perOf axes)) (Conn L (edgesOf (shapeOf axes) (perOf axes)) c0)
+      (ballLift axes ctr) := by
+  intro L
+  have hpos := shape_pos axes ctr h
+  have m0 : mask c0 = true := hc.sub c0 hc.c0in
+  obtain ⟨hLpos, hLeq, _, _⟩ := labelExec_isLabelling (shapeOf axes) mask hc.bound
+  have hL0 : 0 < L c0 := (hLpos c0).mpr m0
+  -- membership of the component = membership of the ball
+  have hlab := comp_label_iff h hc (fun _ _ => 0) [] (fun _ => 0)
+  have hcompball : ∀ c, Conn L (edgesOf (shapeOf axes) (perOf axes)) c0 c → ballMask axes ctr R c = true := by
+    intro c hcn
+    have hLc : 0 < L c := (conn_pos hcn).mp hL0
+    have inv := labInv_final (fun _ => 0) L (fun _ _ => 0) [] (edgesOf (shapeOf axes) (perOf axes))
+    have := inv.eq_of_conn L hcn
+    exact (hlab.2 c).mp this.symm
+  -- GridConn-neighbours are in the ball together
+  have hstep : ∀ x y, mask x = true → mask y = true → GridConn (shapeOf axes) (perOf axes) mask x y →
+      (ballMask axes ctr R x = true ↔ ballMask axes ctr R y = true) := by
+    intro x y mx my hxy
+    rw [← hc.comp x mx, ← hc.comp y my]
+    exact ⟨fun hx => EqvGen.trans _ _ _ hx hxy, fun hy => EqvGen.trans _ _ _ hy (EqvGen.symm _ _ hxy)⟩
+  constructor
+  · intro c1 c2 p1 p2 heq a
+    have b1 := hcompball c1 p1
+    have q1 : mask c1 = true := hc.sub c1 b1
+    have q2 : mask c2 = true := hc.sub c2 (hcompball c2 p2)
+    have hconn := (hLeq c1 c2 q1 q2).mp heq
+    unfold ballLift
+    congr 1
+    -- along the in-box path inside the image: stays in the ball, wrap counts agree
+    have key : (ballMask axes ctr R c1 = true ↔ ballMask axes ctr R c2 = true) ∧
+        (ballMask axes ctr R c1 = true → ∀ a, wrapCount axes ctr c1 a = wrapCount axes ctr c2 a) := by
+      clear heq p1 p2 q1 q2 b1
+      induction hconn with
+      | rel x y hl =>
+        obtain ⟨mx, my, hor⟩ := hl
+        rcases hor with rfl | ⟨e, he, rfl, rfl⟩
+        · exact ⟨Iff.rfl, fun _ _ => rfl⟩
+        · have hs := (inboxEdges_iff (shapeOf axes) hpos e.ax e.l e.h).mp (by cases e; exact he)
+          have hadj : GridConn (shapeOf axes) (perOf axes) mask e.l e.h :=
+            EqvGen.rel _ _ ⟨mx, my, Or.inr ⟨e.ax, Or.inl hs⟩⟩
+          have hiff := hstep e.l e.h mx my hadj
+          exact ⟨hiff, fun hb a => (wrapCount_stepUp axes ctr h hres hs hb (hiff.mp hb) a).symm⟩
+      | refl x => exact ⟨Iff.rfl, fun _ _ => rfl⟩
+      | symm x y _ ih => exact ⟨ih.1.symm, fun hb a => (ih.2 (ih.1.mpr hb) a).symm⟩
+      | trans x y z _ _ ih1 ih2 =>
+        exact ⟨ih1.1.trans ih2.1, fun hb a => (ih1.2 hb a).trans (ih2.2 (ih1.1.mp hb) a)⟩
+    exact key.2 b1 a
+  · intro e he pl ph _ _ a
+    have ml := hcompball e.l pl
+    have mh := hcompball e.h ph
+    have hs := (edgesOf_iff (shapeOf axes) (perOf axes) hpos e.ax e.l e.h).mp (by cases e; exact he)
+    have := wrapCount_across axes ctr h hres hs ml mh a
+    unfold ballLift
+    omega
+
+/-- **One droplet of an emulsion (or alone): volume and position of its cluster.**  If the component of `c0`
+in the image is exactly the droplet's set of covered cells and the droplet is resolved, then the cluster of
+`c0` has the volume (in cells) of the covered cells and its position, in grid coordinates, is within half a
+cell of the droplet's centre along every axis (up to whole periods along periodic axes only). -/
+theorem comp_volume_and_position (h : GridWF axes ctr) (hr : FullyResolved axes ctr R) (hd : 0 < axes.length)
+    (hc : CompIsBall axes ctr mask c0 R) :
+    let L := labelFn (shapeOf axes) mask
+    let cells := List.range (numCells (shapeOf axes))
+    let st := mergeLoop (fun a => (shapeOf axes).getD a 1) L (initSt (coordOf (shapeOf axes)) L cells)
+      (edgesOf (shapeOf axes) (perOf axes))
+    st.vol (st.lab c0) = (((Finset.range (numCells (shapeOf axes))).filter fun c => ballMask axes ctr R c = true).card : ℚ) ∧
+    ∃ m : ℕ → ℤ, (∀ a, a < axes.length → (axes.getD a default).periodic = false → m a = 0) ∧ ∀ a, a < axes.length →
+      |(axes.getD a default).lo + (axes.getD a default).dx * st.pos (st.lab c0) a
+        - (m a : ℚ) * (axes.getD a default).length - ctr.getD a 0| < (axes.getD a default).dx / 2 := by
+  intro L cells st
+  have hpos := shape_pos axes ctr h
+  have hres := hr.resolved axes ctr hd
+  have m0 : mask c0 = true := hc.sub c0 hc.c0in
+  obtain ⟨hLpos, _, _, _⟩ := labelExec_isLabelling (shapeOf axes) mask hc.bound
+  have hL0 : 0 < L c0 := (hLpos c0).mpr m0
+  have hc0 : c0 ∈ cells := List.mem_range.mpr (hc.bound c0 m0)
+  obtain ⟨hr0pos, hlab⟩ := comp_label_iff h hc (coordOf (shapeOf axes)) cells (fun a => (shapeOf axes).getD a 1)
+  have hfilter : (Finset.range (numCells (shapeOf axes))).filter (fun c => st.lab c = st.lab c0) =
+      (Finset.range (numCells (shapeOf axes))).filter (fun c => ballMask axes ctr R c = true) :=
+    Finset.filter_congr (fun c _ => hlab c)
+  have hne : ((Finset.range (numCells (shapeOf axes))).filter fun c => ballMask axes ctr R c = true).Nonempty :=
+    ⟨c0, Finset.mem_filter.mpr ⟨Finset.mem_range.mpr (hc.bound c0 m0), hc.c0in⟩⟩
+  have hcnt : count st.lab (st.lab c0) cells =
+      (((Finset.range (numCells (shapeOf axes))).filter fun c => ballMask axes ctr R c = true).card : ℚ) := by
+    rw [count_eq_card, hfilter]
+  constructor
+  · have hpres : Present st cells (st.lab c0) := ⟨hr0pos, c0, hc0, rfl⟩
+    rw [mergeLoop_volume (fun a => (shapeOf axes).getD a 1) L (coordOf (shapeOf axes)) cells
+      (edgesOf (shapeOf axes) (perOf axes)) (edgesOf_cells (shapeOf axes) (perOf axes) hpos) (st.lab c0) hpres, hcnt]
+  · have hm := C02_position_explicit (fun a => (shapeOf axes).getD a 1) L (coordOf (shapeOf axes)) cells
+      (edgesOf (shapeOf axes) (perOf axes)) (edgesOf_cells (shapeOf axes) (perOf axes) hpos) c0 hc0 hL0
+      (ballLift axes ctr) (comp_lift_consistent h hres hc)
+    set m : ℕ → ℤ := fun a => st.off (L c0) a - ballLift axes ctr c0 a with hmdef
+    refine ⟨m, ?_, fun a ha => ?_⟩
+    · intro a ha hp
+      have hoff := off_zero_along (fun a => (shapeOf axes).getD a 1) L (coordOf (shapeOf axes)) cells
+        (edgesOf (shapeOf axes) (perOf axes)) a (by
+          intro e he hax
+          have := ((mem_edgesOf (shapeOf axes) (perOf axes) e).mp he).2.1
+          rw [hax, per_getD axes ha, hp] at this
+          exact absurd this (by simp)) (L c0)
+      have hl : ballLift axes ctr c0 a = 0 := by
+        unfold ballLift wrapCount
+        simp only
+        rw [hp]; simp
+      simp only [hmdef]
+      rw [hl]
+      have : st.off (L c0) a = 0 := hoff
+      omega
+    · have hcpos : (0 : ℚ) < count st.lab (st.lab c0) cells := by rw [hcnt]; exact_mod_cast Finset.card_pos.mpr hne
+      have hma : st.pos (st.lab c0) a =
+          wsum st.lab (st.lab c0) (fun c => (coordOf (shapeOf axes) c a : ℚ) + 1 / 2 +
+            (ballLift axes ctr c a : ℚ) * (((shapeOf axes).getD a 1 : ℕ) : ℚ)) cells / count st.lab (st.lab c0) cells
+            + (m a : ℚ) * (((shapeOf axes).getD a 1 : ℕ) : ℚ) := hm a
+      have hpt : ∀ c, U axes ctr c a = (axes.getD a default).dx * ((coordOf (shapeOf axes) c a : ℚ) + 1 / 2 +
+            (ballLift axes ctr c a : ℚ) * (((shapeOf axes).getD a 1 : ℕ) : ℚ))
+          + ((axes.getD a default).lo - ctr.getD a 0) := by
+        intro c
+        rw [U_eq_unwrapped, shape_getD axes ha]
+        unfold ballLift Axis.centre Axis.length
+        push_cast; ring
+      have hw : wsum st.lab (st.lab c0) (fun c => U axes ctr c a) cells =
+          (axes.getD a default).dx * wsum st.lab (st.lab c0)
+            (fun c => (coordOf (shapeOf axes) c a : ℚ) + 1 / 2 + (ballLift axes ctr c a : ℚ) * (((shapeOf axes).getD a 1 : ℕ) : ℚ)) cells
+          + ((axes.getD a default).lo - ctr.getD a 0) * count st.lab (st.lab c0) cells := by
+        rw [← wsum_affine]
+        congr 1
+        funext c
+        exact hpt c
+      have hbound := ball_offset_mean axes ctr h R ha (hr a ha) hne
+      have hwU : wsum st.lab (st.lab c0) (fun c => U axes ctr c a) cells =
+          ∑ c ∈ (Finset.range (numCells (shapeOf axes))).filter (fun c => ballMask axes ctr R c = true), U axes ctr c a := by
+        rw [wsum_eq_finset, hfilter]
+      rw [hwU] at hw
+      rw [hma]
+      generalize wsum st.lab (st.lab c0) (fun c => (coordOf (shapeOf axes) c a : ℚ) + 1 / 2 +
+        (ballLift axes ctr c a : ℚ) * (((shapeOf axes).getD a 1 : ℕ) : ℚ)) cells = W at hw ⊢
+      rw [hcnt] at hcpos hw ⊢
+      generalize (((Finset.range (numCells (shapeOf axes))).filter fun c => ballMask axes ctr R c = true).card : ℚ) = C at hcpos hw hbound ⊢
+      generalize (∑ c ∈ (Finset.range (numCells (shapeOf axes))).filter (fun c => ballMask axes ctr R c = true), U axes ctr c a) = SU at hw hbound
+      rw [shape_getD axes ha]
+      have hdxn : (axes.getD a default).length = (axes.getD a default).dx * ((axes.getD a default).n : ℚ) := rfl
+      rw [hdxn]
+      have e : (axes.getD a default).lo + (axes.getD a default).dx * (W / C + (m a : ℚ) * ((axes.getD a default).n : ℚ))
+          - (m a : ℚ) * ((axes.getD a default).dx * ((axes.getD a default).n : ℚ)) - ctr.getD a 0 = SU / C := by
+        rw [hw]; field_simp; ring
+      rw [e, abs_div, abs_of_pos hcpos, div_lt_iff₀ hcpos]
+      linarith
+
+end comp
+end DV.C01
+
+namespace DV.C01
+open Finset BigOperators DV.Merge DV.MergeInv DV.Label DV.LabelInv DV.GridGeom DV.Render DV.BallConn DV.C02 Relation
+
+variable (axes : List Axis)
+
+theorem emulsion_compIsBall (balls : List (List ℚ × ℚ)) (hwf : ∀ b ∈ balls, GridWF axes b.1)
+    (hsep : Separated axes balls) (b : List ℚ × ℚ) (hb : b ∈ balls) (c0 : ℕ) (h0 : ballMask axes b.1 b.2 c0 = true) :
+    CompIsBall axes b.1 (emulsionMask axes balls) c0 b.2 := by
+  refine ⟨fun c hc => (emulsionMask_iff axes balls c).mpr ⟨b, hb, hc⟩, ?_, ?_, h0⟩
+  · intro c hc
+    obtain ⟨b', _, hb'⟩ := (emulsionMask_iff axes balls c).mp hc
+    exact ((ballMask_iff axes b'.1 b'.2 c).mp hb').1
+  · intro c hc
+    have m0 : emulsionMask axes balls c0 = true := (emulsionMask_iff axes balls c0).mpr ⟨b, hb, h0⟩
+    rw [emulsion_components axes balls hwf hsep m0 hc]
+    constructor
+    · rintro ⟨b', hb', h1, h2⟩
+      by_cases hbb : b' = b
+      · subst hbb; exact h2
+      · exact absurd rfl (hsep b' hb' b hb hbb c0 c0 h1 h0).1
+    · intro hcb
+      exact ⟨b, hb, h0, hcb⟩
+
+/-- **C01 for an emulsion, in the model pipeline.**  Render any number of droplets; if their images are
+separated on the grid (`Separated`) then for EVERY resolved droplet the pipeline (labelling + periodic
+merging of the union image) has one cluster consisting of exactly that droplet's cells, with the volume
+of the covered cells and a position within half a cell of the droplet's centre along every axis. -/
+theorem emulsion_droplet_located (balls : List (List ℚ × ℚ)) (hwf : ∀ b ∈ balls, GridWF axes b.1)
+    (hsep : Separated axes balls) (hd : 0 < axes.length) (b : List ℚ × ℚ) (hb : b ∈ balls)
+    (hr : FullyResolved axes b.1 b.2) (c0 : ℕ) (h0 : ballMask axes b.1 b.2 c0 = true) :
+    let mask := emulsionMask axes balls
+    let L := labelFn (shapeOf axes) mask
+    let cells := List.range (numCells (shapeOf axes))
+    let st := mergeLoop (fun a => (shapeOf axes).getD a 1) L (initSt (coordOf (shapeOf axes)) L cells)
+      (edgesOf (shapeOf axes) (perOf axes))
+    (∀ c, st.lab c = st.lab c0 ↔ ballMask axes b.1 b.2 c = true) ∧
+    st.vol (st.lab c0) = (((Finset.range (numCells (shapeOf axes))).filter fun c => ballMask axes b.1 b.2 c = true).card : ℚ) ∧
+    ∃ m : ℕ → ℤ, (∀ a, a < axes.length → (axes.getD a default).periodic = false → m a = 0) ∧ ∀ a, a < axes.length →
+      |(axes.getD a default).lo + (axes.getD a default).dx * st.pos (st.lab c0) a
+        - (m a : ℚ) * (axes.getD a default).length - b.1.getD a 0| < (axes.getD a default).dx / 2 := by
+  intro mask L cells st
+  have hc := emulsion_compIsBall axes balls hwf hsep b hb c0 h0
+  have h := hwf b hb
+  exact ⟨(comp_label_iff h hc (coordOf (shapeOf axes)) cells (fun a => (shapeOf axes).getD a 1)).2,
+    comp_volume_and_position h hr hd hc⟩
+
+end DV.C01
+
+/-! ### the image of C01/C02 is what rendering (C03) and thresholding (C18) produce -/
+
+namespace DV.C01
+open DV DV.Gen DV.Render DV.BallConn
+
+/-- **Rendering, then thresholding at the midpoint, gives exactly the cells the droplet covers**: for a
+diffuse droplet (`w > 0`, `vmin < vmax`, `R ≥ 0`) the rendered value of a cell whose squared distance from
+the centre is `d2` exceeds `(vmin + vmax)/2` iff `d2 < R²` — the condition `DV.Render.inside` / `ballMask`
+evaluates exactly.  This is the link rendering (C03) → threshold rule 'extrema'/0.5 (C18) → image of C01/C02. -/
+theorem threshold_of_render_is_ball (vmin vmax R w d2 : ℝ) (h : vmin < vmax) (hw : 0 < w) (hR : 0 ≤ R) (hd : 0 ≤ d2) :
+    (vmin + vmax) / 2 < scale_field vmin vmax (render_value diffuse_inside diffuse_smooth R w (Real.sqrt d2) false)
+      ↔ d2 < R * R := by
+  rw [DV.C03.rendered_gt_mid_iff vmin vmax R w _ h hw]
+  constructor
+  · intro hlt
+    have h0 := Real.sqrt_nonneg d2
+    have hsq := Real.sq_sqrt hd
+    nlinarith
+  · intro hlt
+    rw [show R = Real.sqrt (R * R) by rw [Real.sqrt_mul_self hR]]
+    exact Real.sqrt_lt_sqrt hd hlt
 
 end DV.C01
